@@ -403,6 +403,13 @@ where
     RST: OutputPin,
     DELAY: DelayNs,
 {
+    /// Verification hook: the driver's own belief about the booster (power) state
+    #[cfg(feature = "verif")]
+    #[doc(hidden)]
+    pub fn verif_power_flag(&self) -> bool {
+        self.is_turned_on
+    }
+
     fn command(&mut self, spi: &mut SPI, command: Command) -> Result<(), SPI::Error> {
         self.interface.cmd(spi, command)
     }
